@@ -25,6 +25,7 @@ PI = RF.atom("pi")
 
 def run(ctx: Check, tree: Tree) -> None:
     ctx.decided += [
+        "R-ARGORDER (shared with C14): the positional unpacking `s, m1, m2 = self.args` of every phase-space class sees the fields in declaration order however the caller spells keyword arguments",
         "q^2: 4s*q^2 is symmetric in m1<->m2, vanishes at s=(m1+-m2)^2 and equals kinematics.phasespace.Kallen(s, m1^2, m2^2) (cross-module sibling)",
         "PhaseSpaceFactor / ...Abs / ...Complex are 2*R(q^2)/sqrt(s) with R = sqrt, sqrt(Abs), ComplexSqrt and fields in order",
         "ComplexSqrt.get_definition = Piecewise((I*sqrt(-x), x<0), (sqrt(x), True)); _numpycode prints that definition; _pythoncode is the same two-branch function",
@@ -123,6 +124,9 @@ def run(ctx: Check, tree: Tree) -> None:
     ctx.verdict(not problems, "R-TABLE", f"{eq.qual}.evaluate::case-table", tree.loc(eq.methods["evaluate"].node),
                 "EqualMassPhaseSpaceFactor: rows (s<0: i rho^/pi log|..|), (s>(m1+m2)^2: rho^ + i rho^/pi log|..|), (else: 2i rho^/pi atan(1/rho^)) with rho^ = PhaseSpaceFactorAbs(s, m1, m2)",
                 problems or None)
+    from .c14 import check_arg_order
+
+    ctx.section(check_arg_order, ctx, tree)
 
 
 def check_complex_sqrt(ctx: Check, tree: Tree, te: TermEval) -> None:
